@@ -74,6 +74,8 @@ def _ns(lp, locs):
     from .heap import old_view
     pre = getattr(_c(), "pre_state", None)
     d["old"] = lambda o: old_view(o, pre)
+    # state at the latest of: function entry, last resume after a yield, last world-havoc loop head
+    d["since"] = lambda o: old_view(o, getattr(_c(), "seg_state", None) or pre)
     return _NS(d)
 
 
@@ -346,6 +348,9 @@ def loop_havoc(lp, names, locs):
         for key, (arr, ep) in keep.items():
             c.heap.st.arrays[key] = arr
             c.heap.st.key_epoch[key] = ep
+        # `since(obj)`: the arbitrary state at this loop head is the start of a new stretch of the function's own
+        # steps (what happened before it is summarised by the invariant only)
+        c.seg_state = c.heap.snapshot()
     else:
         fo = _fresh_only_pre(c, spec)
         c.heap.havoc(keys=set(spec.modifies)) if spec.modifies else None
